@@ -362,6 +362,14 @@ ares_status_t ares_array_claim_at(void *dest, size_t dest_size,
   }
 
   arr->cnt--;
+
+  /* Once empty there is nothing left to preserve, so restart at the beginning
+   * of the allocation.  Otherwise an array drained from the front up to its
+   * allocation size has offset == alloc_cnt, which ares_array_move() rejects,
+   * making every later insert (and ares_array_finish()) fail. */
+  if (arr->cnt == 0) {
+    arr->offset = 0;
+  }
   return ARES_SUCCESS;
 }
 
